@@ -4,6 +4,9 @@ Open Scope list_scope.
 
 Inductive how := HParam | HLiteral.
 
+(* JSON values (numbers: integers only) *)
+Inductive jsn := JNull | JBool (b : bool) | JInt (z : Z) | JString (s : str) | JArray (l : list jsn) | JObject (l : list (str * jsn)).
+
 Inductive c04case :=
 | CStr (h : how) (w : str)
     (* a String field is set to a value: HParam: w is the value, bound as a parameter;
@@ -13,6 +16,14 @@ Inductive c04case :=
 | CFlt (h : how) (bits : Z) (text_bits : Z)
     (* binary64 by bit pattern; text_bits = the value of the decimal literal text the harness uses for it *)
 | CBool (h : how) (b : bool)
+| CB64 (h : how) (upd : bool) (w : str)
+    (* a Base64 field is set (on creation, or over an existing value if upd) to the text w *)
+| CJson (h : how) (upd : bool) (nullable_field : bool) (prev : option jsn) (v : jsn)
+    (* a Json field that holds prev (None = absent) is set to the JSON value v *)
+| CAlias (a : str) (m : emodel) (q qn : query)
+    (* q uses a as the alias of the entity and of a field, qn uses a neutral alias instead *)
+| CSearch (term : str) (accepted : bool)
+    (* search(term): the statement does not depend on the term; accepted = what FTS5 made of the term *)
 | CDefault (m : emodel) (q : query)
     (* the statement compiled for q under a model whose String defaults are arbitrary text *)
 | CShape (m : emodel) (q : query).
@@ -40,7 +51,7 @@ Definition run_str (h : how) (w : str) : list Z :=
       [0] ++ enc_str (json_esc st)                       (* the JSON text of the field in the _json column *)
           ++ enc_str (match json_unesc (json_esc st) with Some s => s | None => [] end)   (* read back through a query *)
           ++ [zb (str_eqb st v);                         (* found by  field = $p  with p = the value *)
-              zb (str_eqb st (decode_literal (literal_text h w)));   (* found by  field = "literal" *)
+              zb (str_eqb st (decode_literal (literal_text h w)));   (* found by  field = `literal` *)
               1]                                         (* nothing else changed *)
   end.
 
@@ -78,6 +89,108 @@ Fixpoint skeleton (l : str) (inside : bool) : str :=
       else if N.eqb c 39 then 39%N :: skeleton t true else c :: skeleton t false
   end.
 
+(* ---- Json and Base64 fields ---- *)
+(* the row is a JSON object keyed by the short names of the fields; an assignment replaces the member
+   (get_mutate_query: obj.insert) *)
+Fixpoint obj_insert (k : str) (v : jsn) (o : list (str * jsn)) : list (str * jsn) :=
+  match o with
+  | [] => [(k, v)]
+  | (k', v') :: t => if str_eqb k' k then (k, v) :: t else (k', v') :: obj_insert k v t
+  end.
+Fixpoint obj_lookup (k : str) (o : list (str * jsn)) : option jsn :=
+  match o with
+  | [] => None
+  | (k', v') :: t => if str_eqb k' k then Some v' else obj_lookup k t
+  end.
+(* serde_json keeps the members of an object sorted by key: what is read back is the canonical form *)
+Fixpoint ins_member (kv : str * jsn) (l : list (str * jsn)) : list (str * jsn) :=
+  match l with
+  | [] => [kv]
+  | h :: t => match str_cmp (fst kv) (fst h) with Gt => h :: ins_member kv t | _ => kv :: h :: t end
+  end.
+Fixpoint canon (j : jsn) : jsn :=
+  match j with
+  | JArray l => JArray (map canon l)
+  | JObject l => JObject (fold_right ins_member [] (map (fun kv : str * jsn => (fst kv, canon (snd kv))) l))
+  | _ => j
+  end.
+Fixpoint enc_jsn (j : jsn) : list Z :=
+  match j with
+  | JNull => [0] | JBool b => [1; zb b] | JInt z => [2; z] | JString s => 4 :: enc_str s
+  | JArray l => 6 :: Z.of_nat (List.length l) :: flat_map enc_jsn l
+  | JObject l => 7 :: Z.of_nat (List.length l) :: flat_map (fun kv : str * jsn => enc_str (fst kv) ++ enc_jsn (snd kv)) l
+  end.
+(* the row of the harness: the field under test `j`, a neighbour `o` *)
+Definition key_j : str := [106%N].
+Definition key_o : str := [111%N].
+Definition json_after (prev : option jsn) (v : jsn) : list (str * jsn) :=
+  let row0 := match prev with Some p => obj_insert key_j p [(key_o, JInt 7)] | None => [(key_o, JInt 7)] end in
+  obj_insert key_j v row0.
+Definition json_filterable (v : jsn) : Z := match v with JObject _ | JArray _ => 1 | _ => 2 end.
+Definition run_json (h : how) (nullable_field : bool) (prev : option jsn) (v : jsn) : list Z :=
+  match v, nullable_field with
+  | JNull, false => match h with HLiteral => [1] | HParam => [2] end                       (* null is refused for a field that is not nullable *)
+  | _, _ =>
+      let row1 := json_after prev v in
+      [0] ++ enc_jsn (canon (match obj_lookup key_j row1 with Some x => x | None => JNull end))
+          ++ [json_filterable v;     (* an object / array is found by  field = $p  with its canonical text; for a scalar JSON
+                                        value the filter compares the extracted SQL value and is not exercised (2) *)
+              zb (match obj_lookup key_o row1 with Some (JInt 7) => true | _ => false end)]   (* the neighbour and the other rows *)
+  end.
+
+(* URL-safe base64 without padding, canonical trailing bits (base64::URL_SAFE_NO_PAD) *)
+Definition b64_index (c : N) : option N :=
+  if N.leb 65 c && N.leb c 90 then Some (c - 65)%N
+  else if N.leb 97 c && N.leb c 122 then Some (c - 71)%N
+  else if N.leb 48 c && N.leb c 57 then Some (c + 4)%N
+  else if N.eqb c 45 then Some 62%N else if N.eqb c 95 then Some 63%N else None.
+Definition b64_valid (w : str) : bool :=
+  forallb (fun c => match b64_index c with Some _ => true | None => false end) w
+  && match Nat.modulo (List.length w) 4 with
+     | 1%nat => false
+     | 2%nat => match b64_index (last w 0%N) with Some i => N.eqb (N.modulo i 16) 0 | None => false end
+     | 3%nat => match b64_index (last w 0%N) with Some i => N.eqb (N.modulo i 4) 0 | None => false end
+     | _ => true
+     end.
+Definition run_b64 (h : how) (w : str) : list Z :=
+  if b64_valid w then [0] ++ enc_str w ++ [1; 1; 1]
+  else match h with HLiteral => [1] | HParam => [2] end.
+
+(* identifiers: (LETTER | NUMBER | `_`)+ ; the ASCII part of LETTER / NUMBER is [A-Za-z] / [0-9]; outside ASCII the
+   harness only uses the characters listed here *)
+Definition ident_char (c : N) : bool :=
+  (N.leb 65 c && N.leb c 90) || (N.leb 97 c && N.leb c 122) || (N.leb 48 c && N.leb c 57) || N.eqb c 95
+  || existsb (N.eqb c) [233; 223; 20013; 937; 1633]%N.
+Definition ident_ok (a : str) : bool :=
+  negb (match a with [] => true | _ => false end) && forallb ident_char a
+  && negb (match a with 95%N :: _ => true | _ => false end).     (* an alias must not start with _ *)
+(* the structure of a statement with identifiers quoted by ` and literals by ' *)
+Fixpoint skeleton2 (l : str) (inside : N) : str :=          (* inside: 0 = outside, 39 / 34 = inside that kind of quote *)
+  match l with
+  | [] => []
+  | c :: t =>
+      if N.eqb inside 0 then
+        if N.eqb c 39 || N.eqb c 34 then c :: skeleton2 t c else c :: skeleton2 t 0
+      else if N.eqb c inside then
+        match t with
+        | c' :: t' => if N.eqb c' inside then skeleton2 t' inside else c :: skeleton2 t 0
+        | [] => [c]
+        end
+      else skeleton2 t inside
+  end.
+(* a search term made of plain words: FTS5 reads it as the words themselves *)
+Definition word_char (c : N) : bool :=
+  (N.leb 65 c && N.leb c 90) || (N.leb 97 c && N.leb c 122) || (N.leb 48 c && N.leb c 57) || N.eqb c 95 || N.leb 128 c.
+Fixpoint split_words (l : str) (cur : str) : list str :=
+  match l with
+  | [] => [rev cur]
+  | c :: t => if N.eqb c 32 then rev cur :: split_words t [] else split_words t (c :: cur)
+  end.
+Definition fts_operator (w : str) : bool :=
+  str_eqb w (lit "AND") || str_eqb w (lit "OR") || str_eqb w (lit "NOT") || str_eqb w (lit "NEAR").
+Definition plain_term (t : str) : bool :=
+  forallb (fun w => negb (match w with [] => true | _ => false end) && forallb word_char w && negb (fts_operator w)) (split_words t []).
+
 (* ---- what the model says the implementation does ---- *)
 Definition run_C04 (c : c04case) : list Z :=
   match c with
@@ -85,6 +198,10 @@ Definition run_C04 (c : c04case) : list Z :=
   | CInt h z => [0; z; 1; 1; 1]
   | CFlt h bits tb => [0; match h with HParam => bits | HLiteral => tb end; 1; 1; 1]
   | CBool h b => [0; zb b; 1; 1; 1]
+  | CB64 h upd w => run_b64 h w
+  | CJson h upd nf prev v => run_json h nf prev v
+  | CAlias a m q qn => if ident_ok a then [1; zb (str_eqb (skeleton2 (sql_text m q) 0) (skeleton2 (sql_text m qn) 0)); 1; 1] else [0]
+  | CSearch term acc => [1; if plain_term term then 1 else zb acc]
   | CDefault m q => 1 :: enc_str (sql_text m q) ++ enc_str (sql_text (neutral_model m) q)
   | CShape m q => [zb (str_eqb (sql_text m q) (sql_text m (neutral_query q)))]
   end.
@@ -121,9 +238,26 @@ Definition spec_C04 (c : c04case) (obs : list Z) : bool :=
   | CInt h z => zlist_eqb obs [0; z; 1; 1; 1]
   | CFlt h bits tb => Z.eqb bits tb && zlist_eqb obs [0; bits; 1; 1; 1]
   | CBool h b => zlist_eqb obs [0; zb b; 1; 1; 1]
+  | CB64 h upd w =>
+      (* a valid text is stored, read back, found by both filters; nothing else changes *)
+      if b64_valid w then zlist_eqb obs ([0] ++ enc_str w ++ [1; 1; 1]) else negb (match obs with 0 :: _ => true | _ => false end)
+  | CJson h upd nf prev v =>
+      (* the value read back is the assigned value (whatever the field held), the equality filter finds it,
+         the neighbour field and the other rows are unchanged *)
+      match v, nf with
+      | JNull, false => negb (match obs with 0 :: _ => true | _ => false end)
+      | _, _ => zlist_eqb obs ([0] ++ enc_jsn (canon v) ++ [json_filterable v; 1])
+      end
+  | CAlias a m q qn =>
+      (* an identifier the grammar accepts changes nothing but the names: same structure, accepted by the engine,
+         same rows *)
+      if ident_ok a then zlist_eqb obs [1; 1; 1; 1] else zlist_eqb obs [0]
+  | CSearch term acc =>
+      (* the statement is the same whatever the term, and the engine answers *)
+      zlist_eqb obs [1; 1]
   | CDefault m q =>
       (* the text of a default value does not change the structure of the statement (compared with the statement
-         the implementation compiles when every String default is the neutral "x"), and the engine accepts it *)
+         the implementation compiles when every String default is the neutral `x`), and the engine accepts it *)
       match obs with
       | ok :: t => match dec_str t with
                    | Some (text, t1) => match dec_str t1 with
@@ -142,7 +276,13 @@ Definition spec_C04 (c : c04case) (obs : list Z) : bool :=
    none is left: the four classes found on the original tree were repaired in /repo
    (1 literal escapes: cdaba75, 2 String default written into the filter SQL: 936f709,
     3 variable captured by a literal: e64e320, 4 Float literal written with Display: 043e710) *)
-Definition known_C04 (c : c04case) : list Z := [].
+Definition known_C04 (c : c04case) : list Z :=
+  match c with
+  | CSearch term acc => if plain_term term then [] else [5]
+      (* 5: the search term is handed to FTS5 as a query expression: a term that is not made of plain words
+            (quotes, operators, punctuation) is read as FTS5 syntax and can be refused *)
+  | _ => []
+  end.
 
 Definition eval_C04 (c : c04case) (obs : list Z) : list Z :=
   [zb (zlist_eqb (run_C04 c) obs); zb (spec_C04 c obs)] ++ known_C04 c.
